@@ -30,7 +30,8 @@ def supervise(argv):
     import time
     from .common import EVIDENCE, REPLAYS, seed
     t0 = time.time()
-    crumb = f"/var/tmp/pgverif-crumb-{os.getpid()}"
+    import tempfile
+    crumb = os.path.join("/var/tmp" if os.access("/var/tmp", os.W_OK) else tempfile.gettempdir(), f"pgverif-crumb-{os.getpid()}")
     env = dict(os.environ, PGVERIF_CHILD="1", PGVERIF_BREADCRUMB=crumb)
     def attempt():
         p = subprocess.Popen([sys.executable, "-W", "ignore", "-m", "pgverif.check"] + argv, env=env)
